@@ -768,6 +768,23 @@ def splitter_model(run, prop):
     run.extra["splitter_model_bounds"] = dict(max_lines=ml, max_line_length=mlen, alphabet=["x", ";", " "])
 
 
+NEXUS_DOCS_CFG = """SPECIFICATION Spec
+CONSTANTS
+  Level = %d
+  Emit = TRUE
+INVARIANTS BaseWellFormed EmitDoc
+CHECK_DEADLOCK FALSE
+"""
+
+
+def nexus_docs_model(run, prop, level):
+    import models
+    out = vk.run_model(run, "NexusDocs", "NexusDocs.tla", NEXUS_DOCS_CFG % level, workers=8, heap="6g")
+    cases_path, n = models.emit_cases(run, prop, [out], name="nexuscases")
+    models.replay_cases(run, prop, cases_path, n, "nexus-replay", "TraceDocs.tla", DOCS_TRACE_CFG % ('"%s"' % prop), per_shard=300)
+    run.extra["nexus_grammar_documents"] = dict(deviation_level=level, documents=n)
+
+
 def sharded(run, driver, prop, ncases, spec, cfg, extra_args=(), tag="rnd", timeout=1800, shards=None, per_shard_args=None):
     shards = shards or vk.NCPU
     per = math.ceil(ncases / shards)
@@ -814,6 +831,7 @@ def conversions_family(run, replay):
         run.traces = 1
         return vk.finish(run, rule="replay of one recorded case on the current /repo")
     splitter_model(run, "C13")
+    nexus_docs_model(run, "C13", 1)
     ncases, maxtips = (1600, 20) if run.tier == "quick" else (40000, 40)
     gotree = run.build_gotree()
     sharded(run, "docs", "C13", ncases, "TraceDocs.tla", cfg, extra_args=["--maxtips", str(maxtips), "--gotree", gotree])
@@ -866,6 +884,7 @@ def readers_family(run, replay):
     cases_path, n = models.emit_cases(run, "C02", [out])
     models.replay_cases(run, "C02", cases_path, n, "nw-replay", "TraceNewick.tla", NEWICK_TRACE_CFG % '"C02"', per_shard=400)
     splitter_model(run, "C02")
+    nexus_docs_model(run, "C02", 2 if run.tier == "quick" else 3)
     ncases = 4800 if run.tier == "quick" else 160000
     res = sharded(run, "readers", "C02", ncases, "TraceDocs.tla", cfg, timeout=3000,
                   per_shard_args=lambda i, n: ["--sweep", "--sweepmod", str(n), "--sweepidx", str(i)])
